@@ -26,7 +26,10 @@ WORLD_TIMEOUT_S = float(os.environ.get("COMASIM_WORLD_TIMEOUT", "300"))
 
 def build_argv(case, ex):
     fs = ex.get("fileset", "base")
-    argv = ["-r", f"r_{fs}.cmap", "-q", f"q_{fs}.cmap", "-o", "out.xmap", "-oM", ex.get("mode", "best")]
+    rfile, qfile = f"r_{fs}.cmap", f"q_{fs}.cmap"
+    if ex.get("self_file"):            # one CMAP file holding references and queries, given as both -r and -q
+        rfile = qfile = f"c_{fs}.cmap"
+    argv = ["-r", rfile, "-q", qfile, "-o", ex.get("out_name", "out.xmap"), "-oM", ex.get("mode", "best")]
     if ex.get("cpus") is not None:
         argv += ["-c", str(ex["cpus"])]
     cfg = dict(case.get("config", {}))
@@ -52,16 +55,49 @@ def write_inputs(case, workdir):
         with open(os.path.join(workdir, f"q_{name}.cmap"), "w") as f:
             f.write(qt)
         texts[name] = (rt, qt)
+        if fs.get("combined"):
+            both = sorted(fs["refs"] + fs["queries"], key=lambda m: m["id"])
+            with open(os.path.join(workdir, f"c_{name}.cmap"), "w") as f:
+                f.write(fmt.write_cmap(both, fs.get("c_layout")))
     return texts
 
 
+def _is_input(n):
+    return (n.endswith(".cmap") and n[:2] in ("r_", "q_", "c_")) or n.startswith("decoy_")
+
+
 def _clean_outputs(workdir):
+    """Remove everything an earlier execution wrote (inputs and decoy_*.xmap files are kept)."""
     for n in os.listdir(workdir):
-        if n.startswith("out") or n == "stderr.txt":
+        p = os.path.join(workdir, n)
+        if os.path.isdir(p):
+            shutil.rmtree(p, ignore_errors=True)
+        elif not _is_input(n):
             try:
-                os.unlink(os.path.join(workdir, n))
+                os.unlink(p)
             except OSError:
                 pass
+
+
+def canonical_names(out_name):
+    """Where the run is expected to put its files -> the canonical names the oracles use."""
+    base, ext = os.path.splitext(out_name)
+    return {os.path.normpath(out_name): "out.xmap", os.path.normpath(f"{base}_1{ext}"): "out_1.xmap",
+            os.path.normpath(f"{base}_2{ext}"): "out_2.xmap"}
+
+
+def collect_outputs(workdir, out_name):
+    """Every file below workdir that is not an input, keyed by canonical name (or by its own path if unexpected)."""
+    canon = canonical_names(out_name)
+    files = {}
+    for root, _, names in os.walk(workdir):
+        for n in sorted(names):
+            rel = os.path.normpath(os.path.relpath(os.path.join(root, n), workdir))
+            if _is_input(rel) or rel == "stderr.txt":
+                continue
+            with open(os.path.join(root, n), "r", newline="", errors="replace") as f:
+                files[canon.get(rel, rel)] = f.read()
+    return files
 
 
 def _readback_summary(alignments):
@@ -117,7 +153,10 @@ def _child(case, ex, workdir, wfd):
         pt.cpu_count = lambda: cc
 
         dec = sim.DecisionSource(ex.get("sched_seed", 0), ex.get("decisions"))
-        st = sim.SimState(dec, ex.get("profile", "serial"), watch_paths=["out.xmap"])
+        out_name = ex.get("out_name", "out.xmap")
+        if os.path.dirname(out_name):
+            os.makedirs(os.path.dirname(out_name), exist_ok=True)
+        st = sim.SimState(dec, ex.get("profile", "serial"), watch_paths=[out_name])
         st.extra_close.add(wfd)
         st.tapped = []
         sim.install(st)
@@ -173,17 +212,37 @@ def _child(case, ex, workdir, wfd):
         outcome["short_reads"] = sum(o.short_reads for o in stream_objs)
         outcome["stream_reads"] = sum(o.reads for o in stream_objs)
         # what a subsequent reader sees the moment run() returned - before any gc, through fresh handles
-        files = {}
-        for n in sorted(os.listdir(".")):
-            if n.startswith("out") and n.endswith(".xmap"):
-                with open(n, "r", newline="") as f:
-                    files[n] = f.read()
+        files = collect_outputs(".", ex.get("out_name", "out.xmap"))
         outcome["files"] = files
         outcome["writes"] = writes
         outcome["tapped"] = st.tapped
         # C18: read every written file back with the project's reader through a simulated stream
         rb = {}
         rbs = ex.get("readback")
+        if rbs and rbs.get("decoy") and outcome["status"] == "ok":
+            # history in ONE process: first read the files of an earlier run on *other* maps (same molecule ids) with a
+            # reader built on those maps, then (below) this run's files with this run's reader
+            from src.parsers.cmap_reader import CmapReader
+            from src.parsers.xmap_alignment_pair_parser import XmapAlignmentPairWithDistanceParser
+            dname = rbs["decoy"]
+            drb = {}
+            try:
+                with open(f"r_{dname}.cmap") as fh:
+                    drefs = CmapReader().readReferences(fh)
+                with open(f"q_{dname}.cmap") as fh:
+                    dqueries = [q.trim() for q in CmapReader().readQueries(fh)]
+                dreader = XmapReader(XmapAlignmentPairWithDistanceParser(drefs, dqueries))
+                for k, n in enumerate(sorted(x for x in os.listdir(".") if x.startswith("decoy_") and x.endswith(".xmap"))):
+                    with open(n, "r", newline="") as fh:
+                        text = fh.read()
+                    stream = streams.SimTextReader(text, n, rbs["profile"], rbs["seed"] + 100 + k, rbs.get("seekable", True))
+                    try:
+                        drb[n] = {"ok": True, "alignments": _readback_summary(dreader.readAlignments(stream)), "text": text}
+                    except BaseException as e:  # noqa: BLE001
+                        drb[n] = {"ok": False, "type": type(e).__name__, "msg": str(e)[:200], "text": text}
+            except BaseException as e:  # noqa: BLE001
+                drb["_error"] = {"ok": False, "type": type(e).__name__, "msg": str(e)[:200]}
+            outcome["readback_decoy"] = drb
         if rbs and outcome["status"] == "ok":
             for k, (n, text) in enumerate(sorted(files.items())):
                 stream = streams.SimTextReader(text, n, rbs["profile"], rbs["seed"] + k, rbs.get("seekable", True))
@@ -250,12 +309,7 @@ def run_execution(case, ex, workdir):
             pass
     outcome["wall_s"] = time.time() - t0
     # late view: after the world process (and every handle it held) is gone
-    late = {}
-    for n in sorted(os.listdir(workdir)):
-        if n.startswith("out") and n.endswith(".xmap"):
-            with open(os.path.join(workdir, n), "r", newline="") as f:
-                late[n] = f.read()
-    outcome["late_files"] = late
+    outcome["late_files"] = collect_outputs(workdir, ex.get("out_name", "out.xmap"))
     if outcome["status"] == "harness" and outcome.get("exc") and not outcome["exc"].get("tb"):
         outcome["exc"]["tb"] = _stderr(workdir)
     return outcome
@@ -267,6 +321,46 @@ def _stderr(workdir):
             return f.read()[-3000:]
     except OSError:
         return ""
+
+
+def isolated(fn, *args, timeout=120):
+    """Run fn(*args) in a freshly forked child (module state cannot leak between calls) and return its picklable result."""
+    rfd, wfd = os.pipe()
+    sys.stdout.flush()
+    sys.stderr.flush()
+    pid = os.fork()
+    if pid == 0:
+        code = 0
+        try:
+            os.close(rfd)
+            sim.set_pdeathsig()
+            try:
+                res = ("ok", fn(*args))
+            except BaseException as e:  # noqa: BLE001
+                res = ("error", f"{type(e).__name__}: {e}\n{traceback.format_exc()[-2000:]}")
+            sim._send(wfd, pickle.dumps(res, protocol=4))
+        except BaseException:  # noqa: BLE001
+            code = 3
+        finally:
+            os._exit(code)
+    os.close(wfd)
+    try:
+        kind, val = pickle.loads(sim._recv(rfd, timeout))
+    except (TimeoutError, EOFError) as e:
+        kind, val = "error", f"isolated call failed: {type(e).__name__}"
+    finally:
+        os.close(rfd)
+        try:
+            os.kill(pid, signal.SIGKILL)
+        except OSError:
+            pass
+        try:
+            os.waitpid(pid, 0)
+        except OSError:
+            pass
+    if kind != "ok":
+        raise sim.HarnessError(val)
+    return val
 
 
 # ----------------------------------------------------------------------------------------------------------
